@@ -389,6 +389,10 @@ impl<'a> Socket<'a> {
         let ip_version = self.ip_version;
         let _checksum_caps = &cx.checksum_caps();
         let res = self.tx_buffer.dequeue_with(|&mut (), buffer| {
+            if buffer.is_empty() {
+                net_trace!("raw: sent empty packet, dropping.");
+                return Ok(());
+            }
             match IpVersion::of_packet(buffer) {
                 #[cfg(feature = "proto-ipv4")]
                 Ok(IpVersion::Ipv4) => {
